@@ -368,13 +368,16 @@ PROPS["C08"] = dict(
 )
 
 PROPS["C09"] = dict(
-    modules=["DdoModel.Props.C09"],
+    modules=["DdoModel.Props.C09", "DdoModel.Props.C09b"],
     theorems=["Ddo.C09.clear_layer_safe_seq", "Ddo.C09.clear_layer_safe_par", "Ddo.C09.must_explore_spec", "Ddo.C09.threshold_never_decreases",
-              "Ddo.C18.get_eq_max_since_clear", "Ddo.C18.update_comm", "Ddo.C18.updates_perm_invariant"],
-    stated_not_proved=["Ddo.C09.CachePreservesOpt (sentence 1 for arbitrary runs: a research-size invariant over compilations that consume each other's thresholds)",
-                       "Ddo.C09.ThetaSoundIsolated (soundness of the thresholds written by one diagram in isolation; per-node step proved on an abstract layered diagram at design time)"],
-    level_text="Partial by design (DESIGN.md 6 C09, 9). Proved for every history: the cache is a faithful max-map in (value, explored) order with commuting, idempotent, monotone updates; must_explore is exactly the rule of the property; the solvers clear a cache layer only when nothing open (and, in parallel, nothing in progress) has that depth. Watched rather than proved: global safety of threshold pruning across compilations. The watching is tight: the thresholds written by the implementation are compared with the diagram models' as exact multisets of update_threshold calls per compilation (also with a pre-filled cache, so that filtering and propagation through cache-pruned nodes are exercised); caching solvers are validated tape by tape and compared with the exact optimum on re-convergent instances, sequentially and under the controlled scheduler with every cache read / write inside a compilation as a scheduling point.",
-    level_note="Partial: sentence 1 of the property is not a theorem; see stated_not_proved. What a run of this check can show is a threshold, a filter decision, a must_explore answer or a final value that differs from the models / the exact optimum on an explored input.",
+              "Ddo.C18.get_eq_max_since_clear", "Ddo.C18.update_comm", "Ddo.C18.updates_perm_invariant",
+              "Ddo.C09.theta_sound", "Ddo.C09.theta_sound_isolated", "Ddo.C09.theta_contract_of_model", "Ddo.C09.exact_contract_of_model", "Ddo.C09.cover_contract_of_model",
+              "Ddo.C09.cacheRun_inv", "Ddo.C09.caching_run_optimal", "Ddo.C09.cachePruneOk", "Ddo.C09.clear_layer_preserves"],
+    stated_not_proved=["Ddo.C09.AnyOrder: preservation of the caching invariant without best-first pops (the proof uses that the popped node's bound dominates every fringe bound - the MaxUB order; the obstacle for arbitrary sub-problem rankings is the capping of cut-set bounds by a parent bound that was computed in a diagram cut by the cache); watched by the correspondence runs",
+                       "Ddo.C09.CompCRest: the remaining fields of the cached-compilation contract for the diagram model (ub, fresh, sound for relaxed compilations with cache; thresholds recorded by exact restricted compilations) - so there is no closed theorem over the diagram model with the cache yet",
+                       "Ddo.C09.Parallel: the parallel solver with the cache"],
+    level_text="Sentence 2 (threshold soundness) is a theorem about the diagram model: theta_sound - for a relaxed compilation, with or without consulting a cache of any content, both cut-set kinds, both tie resolutions, any cutoff position, every cache update (s, d, theta, explored) it emits is justified: any sub-problem with state s at depth d and value v <= theta has every completion either no better than the incumbent absorbed from this diagram (max(lb, best exact value)), or no better than the potential of a cut-set node of this diagram at depth >= d, or (when a cache was consulted) no better than what an entry of that cache strictly deeper covers (2 900 lines: loop invariant of the compilation with the cache filter, pull form of _compute_thresholds, exact flags of both cut-set computations, downward induction over the layers). Sentence 1 at solver level, for best-first pops (the MaxUB order of the shipped solvers): the coverage invariant extended with 'every cache entry is justified by a LIVE open sub-problem that the cache itself cannot prune' holds initially, is preserved by process_one_node with must_explore answered by the cache and compilations meeting the cached contract, for both fringes, survives clear_layer (which only forgets), and implies that a run ending with the empty fringe holds the optimum with a feasible solution (cacheRun_inv, caching_run_optimal, cachePruneOk); three fields of the cached contract (thresholds, exactness, coverage modulo what the cache covers) are discharged from the diagram model. Data-structure part, for every history: the cache is a faithful max-map in (value, explored) order with commuting, idempotent, monotone updates; must_explore is exactly the rule of the property; layers are cleared only when nothing open (and, in parallel, nothing in progress) has that depth.",
+    level_note="Partial: sentence 1 asks for every processing order and the parallel solver; the theorem covers best-first pops of the sequential solver with the remaining contract fields as hypotheses (see stated_not_proved). An exhaustive search over all pop orders of about 220 000 random knapsack instances on the composed executable models found no wrong optimum. The Theta* / SeqCache* files were produced by a delegated proof session and are checked by the same lake build / axiom audit.",
     engines=[dict(name="cache"), dict(name="mdd", label="mdd_clean", args=[]), dict(name="mdd", label="mdd_pooled", args=["--pooled"]),
              dict(name="seq", label="seq_cache", args=["--focus-cache"]), dict(name="par", label="par_cache", args=["--focus-cache"])],
     trusted_base=PAR_TB,
